@@ -477,13 +477,47 @@ func c20Floor(tier string) []*C20Sc {
 	return out
 }
 
+// c20SweepFloor: two tasks perform the same operation on two *different* small values at once; the sweep then places
+// one preemption at every yield of the run and lets the other task run from there. Shared scratch state inside the
+// writers and readers (a window of two or three statements) cannot slip through a random schedule here.
+func c20SweepFloor(tier string) []*C20Sc {
+	codecReference()
+	idx := func(name string) int {
+		for i := range corpus {
+			if corpus[i].name == name {
+				return i
+			}
+		}
+		return -1
+	}
+	pairs := [][2]string{{"escaped-text/0", "escaped-text/1"}, {"escaped-text/2", "escaped-text/0"}}
+	if tier == "thorough" {
+		pairs = append(pairs, [2]string{"escaped-text/1", "escaped-text/2"}, [2]string{"bare-cryptoparams/0", "bare-cryptoparams/1"}, [2]string{"value/0", "value/1"})
+	}
+	var out []*C20Sc
+	for _, pr := range pairs {
+		a, b := idx(pr[0]), idx(pr[1])
+		if a < 0 || b < 0 {
+			continue
+		}
+		for op := 0; op < nCodecOps; op++ {
+			if codecRef[a][op] == "" || codecRef[b][op] == "" {
+				continue
+			}
+			out = append(out, &C20Sc{Tasks: [][]CodecStep{{{Entry: a, Op: op}}, {{Entry: b, Op: op}}}})
+		}
+	}
+	return out
+}
+
 func init() {
 	register(&Prop{
 		ID: "C20", Engine: "codec",
 		Generate: genC20, Decode: decodeC20, Execute: execC20,
 		Config: func(any) simrt.Config { return simrt.Config{MaxSteps: 400000, MaxYields: 50000000, CodecYields: true} },
 		Runs:   clientRuns(50000, 3000000),
-		Floors: []Floor{{Name: "same-op-twice-cold", Count: func(t string) int { return len(c20Floor(t)) }, Scenario: func(t string, i int) any { return c20Floor(t)[i] }}},
+		Floors: []Floor{{Name: "same-op-twice-cold", Count: func(t string) int { return len(c20Floor(t)) }, Scenario: func(t string, i int) any { return c20Floor(t)[i] }},
+			{Name: "two-values-every-single-preemption", Sweep: true, Count: func(t string) int { return len(c20SweepFloor(t)) }, Scenario: func(t string, i int) any { return c20SweepFloor(t)[i] }}},
 		Rule:   "one evaluation = one simulated run starting from cold plan caches in which 2-6 tasks each execute 1-8 corpus operations (encode to TTLV/XML/JSON/text, decode from TTLV/XML/JSON; corpus = request/response messages of 15 request payloads and 27 response payloads at three protocol versions each with version-gated fields populated, plus generic TTLV trees), optionally preceded by a sequential history and accompanied by a task encoding on reused, cleared encoders, with preemptions at statement granularity inside ttlv/encoder.go and ttlv/decoder.go; distinct = distinct event-log hashes among runs with at least one preemption",
 		Components: map[string][]string{
 			"real": {"ttlv encoders/decoders (binary, XML, JSON, text) incl. lazily built per-type plan caches", "kmip message/payload/object types and registries", "kmipclient request builders (to build the corpus)"},
